@@ -3,6 +3,7 @@ package rules
 import (
 	"go/token"
 	"go/types"
+	"sort"
 	"strings"
 
 	"golang.org/x/tools/go/ssa"
@@ -340,6 +341,7 @@ func crossFileState(r *an.Run, m *runModel, rule string) {
 			}
 		}
 	}
+	runnerStateWriteOnly(r, m)
 	r.Pass(short(f)+"|shared-state-inventory", m.loop.If.Pos(), "no local variable, pointer or map created outside the per-file loop is written or passed to a call inside it, apart from the FileSet, logger, runner and configuration (%d uses inspected)", n)
 	r.Count("outer values used in the file loop", n)
 }
@@ -370,4 +372,104 @@ func escapesInLoop(v ssa.Value, loop *an.Loop) bool {
 		}
 	}
 	return false
+}
+
+// runnerStateWriteOnly: the runner is shared by all files. Whatever its
+// methods called from the file loop write into it (the list of errors) is
+// write-only while files are processed: a field that is written for one file
+// is never read back — neither by those methods nor by the loop — except to
+// append to it. Otherwise what happened to an earlier file would decide what
+// happens to a later one.
+func runnerStateWriteOnly(r *an.Run, m *runModel) {
+	f := m.run
+	loop := m.loop.Loop
+	isRunnerPtr := func(t types.Type) bool {
+		p, ok := t.Underlying().(*types.Pointer)
+		return ok && isRunnerType(r, p.Elem()) || isRunnerType(r, t)
+	}
+	var entry []*ssa.Function
+	for _, c := range an.Calls(f) {
+		if !loop.Blocks[c.Block()] {
+			continue
+		}
+		if sc := an.StaticCallee(c); sc != nil && sc.Signature.Recv() != nil && isRunnerPtr(sc.Signature.Recv().Type()) {
+			entry = append(entry, sc)
+		}
+	}
+	if len(entry) == 0 {
+		return
+	}
+	reach := sortedFuncs(r.P.ReachableModuleFuncs(entry...))
+	written := map[string]bool{}
+	for _, g := range reach {
+		for _, in := range an.StoresIn(g) {
+			if st, ok := in.(*ssa.Store); ok {
+				if fa, ok := st.Addr.(*ssa.FieldAddr); ok && isRunnerPtr(fa.X.Type()) {
+					written[fieldNameOf(fa)] = true
+				}
+			}
+		}
+	}
+	onlyAppendedBack := func(ld *ssa.UnOp, field string) bool {
+		if ld.Referrers() == nil {
+			return true
+		}
+		for _, u := range *ld.Referrers() {
+			switch x := u.(type) {
+			case *ssa.DebugRef:
+			case *ssa.Call:
+				if !an.IsCallTo(x, "builtin:append") || x.Call.Args[0] != ssa.Value(ld) || x.Referrers() == nil {
+					return false
+				}
+				for _, w := range *x.Referrers() {
+					st, ok := w.(*ssa.Store)
+					if !ok {
+						if _, dbg := w.(*ssa.DebugRef); dbg {
+							continue
+						}
+						return false
+					}
+					fa, ok := st.Addr.(*ssa.FieldAddr)
+					if !ok || fieldNameOf(fa) != field {
+						return false
+					}
+				}
+			default:
+				return false
+			}
+		}
+		return true
+	}
+	n := 0
+	scan := func(g *ssa.Function, only map[*ssa.BasicBlock]bool) {
+		for _, b := range g.Blocks {
+			if only != nil && !only[b] {
+				continue
+			}
+			for _, in := range b.Instrs {
+				ld, ok := in.(*ssa.UnOp)
+				if !ok || ld.Op != token.MUL {
+					continue
+				}
+				fa, ok := ld.X.(*ssa.FieldAddr)
+				if !ok || !isRunnerPtr(fa.X.Type()) || !written[fieldNameOf(fa)] {
+					continue
+				}
+				n++
+				if !onlyAppendedBack(ld, fieldNameOf(fa)) {
+					r.Fail(short(g)+"|runner-state-read|"+fieldNameOf(fa), ld.Pos(), "%s reads the runner's %s while files are being processed: that field is written for every file and never reset, so what happened to an earlier file would decide what happens to a later one", short(g), fieldNameOf(fa))
+				}
+			}
+		}
+	}
+	for _, g := range reach {
+		scan(g, nil)
+	}
+	scan(f, loop.Blocks)
+	fields := []string{}
+	for k := range written {
+		fields = append(fields, k)
+	}
+	sort.Strings(fields)
+	r.Pass(short(f)+"|runner-state-write-only", m.loop.If.Pos(), "fields of the runner written while files are processed (%s) are only appended to there, never read (%d loads inspected)", strings.Join(fields, ", "), n)
 }
